@@ -32,8 +32,13 @@ def json_conformant_text(r):
     recs = [b"H|\\^&|||" + gens.text_bytes(r, r.randrange(0, 6), high_bias=0.5, letters=False).replace(b"|", b"")
             .replace(b"^", b"").replace(b"\\", b"").replace(b"&", b"") + b"|||||||P||20230101120000"]
     for i in range(r.randrange(0, 3)):
-        recs.append(b"C|%d|I|" % (i + 1) + bytes(x for x in gens.text_bytes(r, r.randrange(0, 30), high_bias=0.5)
-                                                 if x not in b"|^\\&") + b"|G")
+        text = bytes(x for x in gens.text_bytes(r, r.randrange(0, 30), high_bias=0.5) if x not in b"|^\\&")
+        if text and r.random() < 0.15:
+            # a line feed inside a record is an ordinary text byte (records end with CR); what follows it may look like
+            # a record of its own
+            k = r.randrange(len(text) + 1)
+            text = text[:k] + b"\n" + r.choice([b"", b"R", b"L", b"\n"]) + text[k:]
+        recs.append(b"C|%d|I|" % (i + 1) + text + b"|G")
     recs.append(b"L|1|N")
     return gens.CR.join(recs)
 
